@@ -292,6 +292,15 @@ _src_locks = {}
 SRC_CACHE = os.path.join(BUILD, "_src")
 
 
+# The only differences between the verified text and /repo's files (everything else is compiled unmodified):
+REWRITES = {
+    # gcc accepts a static initialised from another static const as an extension; goto-cc wants a constant expression.
+    # The replacement is the initialiser of MASK_HI substituted for its name.
+    "q120/q120_arithmetic_simple.c": [("static const int64_t MASK_LO = ~MASK_HI;",
+                                       "static const int64_t MASK_LO = ~INT64_C(0x8000000000000000);")],
+}
+
+
 def reset_source_cache():
     """called once at the start of every check invocation: repository sources are recompiled from /repo's current tree"""
     shutil.rmtree(SRC_CACHE, ignore_errors=True)
@@ -312,7 +321,16 @@ def compile_source(s, avx, strict, export_static):
         if os.path.exists(out):
             return out
         os.makedirs(SRC_CACHE, exist_ok=True)
-        cmd = ["goto-cc", "-c", src, "-o", out + ".tmp", "-DNDEBUG", "-D" + GUARD, "-I" + SRC]
+        if s in REWRITES:
+            # mechanical, must-fire textual substitutions for constructs goto-cc's C front end rejects (DESIGN 8)
+            text = open(src).read()
+            for pat, rep in REWRITES[s]:
+                if text.count(pat) != 1:
+                    raise Undecided("extraction break: rewrite rule for %s did not fire exactly once: %r" % (s, pat))
+                text = text.replace(pat, rep)
+            src = os.path.join(SRC_CACHE, key + ".rewritten.c")
+            open(src, "w").write(text)
+        cmd = ["goto-cc", "-c", src, "-o", out + ".tmp", "-DNDEBUG", "-D" + GUARD, "-I" + SRC, "-I" + os.path.dirname(os.path.join(SRC, s))]
         if avx:
             cmd += ["-isystem", os.path.join(VERIF, "shim"), "-mavx2", "-mfma"]
             if strict:
